@@ -232,6 +232,7 @@ class CollState:
     ver: int = 0
     complete_of: str | None = None
     deps: frozenset = frozenset()
+    filt: tuple | None = None  # (element value, Formula): the collection holds exactly the elements of `complete_of` satisfying the formula
 
 
 def key(v: Val) -> str:
@@ -294,6 +295,7 @@ class LoopCtx:
     kind: str  # for | while | comp
     elem: Val | None = None
     test_val: Val | None = None
+    filt: tuple | None = None  # filter of the iterated collection (see CollState.filt)
 
 
 @dataclass
@@ -561,10 +563,14 @@ class Sym:
         return atom(f"{key(x)} in {key(c)}")
 
     # ------------------------------------------------------------------ collections
-    def new_coll(self, st: State, kind: str, items: list[tuple[Val, Formula]] | None = None, exact: bool = True, complete_of: str | None = None, deps: frozenset = frozenset()) -> Coll:
+    def new_coll(self, st: State, kind: str, items: list[tuple[Val, Formula]] | None = None, exact: bool = True, complete_of: str | None = None, deps: frozenset = frozenset(), filt: tuple | None = None) -> Coll:
         c = Coll(self.fresh())
-        st.store[key(c)] = CollState(kind, tuple(items or ()), exact, 0, complete_of, deps)
+        st.store[key(c)] = CollState(kind, tuple(items or ()), exact, 0, complete_of, deps, filt)
         return c
+
+    def filt_of(self, v: Val, st: State) -> tuple | None:
+        cs = self.coll_state(v, st)
+        return cs.filt if cs is not None and cs.complete_of else None
 
     def coll_state(self, v: Val, st: State) -> CollState | None:
         return st.store.get(key(v)) if isinstance(v, Coll) else None
@@ -997,6 +1003,7 @@ class Sym:
         fr.yields.append((v, conj(st.path[fr.base_path_len:])))
         if len(self.loops) > fr.base_loops:
             fr.yields_exact = False
+        fr.__dict__.setdefault("yield_sites", []).append((v, tuple(st.path), tuple(self.loops[fr.base_loops:])))
         return Opq("<yield>")
 
     def _e_YieldFrom(self, e, st, ctx):
@@ -1054,7 +1061,7 @@ class Sym:
         elts = [e.key, e.value] if isinstance(e, ast.DictComp) else [e.elt]
         saved_vars = dict(st.vars)
         out_items: list[tuple[Val, Formula]] = []
-        state = {"exact": True, "deps": frozenset(), "complete": None, "first": True}
+        state = {"exact": True, "deps": frozenset(), "complete": None, "first": True, "filt": None}
 
         def rec(gi: int, cond: Formula) -> None:
             if gi == len(e.generators):
@@ -1092,7 +1099,7 @@ class Sym:
             n = self.fresh()
             ia = atom(f"iter#{n}")
             elem = self.elem_of(it, st)
-            lc = LoopCtx(n, ia, tuple(st.path) + ((cond,) if cond != TRUE else ()), it, e, "comp", elem)
+            lc = LoopCtx(n, ia, tuple(st.path) + ((cond,) if cond != TRUE else ()), it, e, "comp", elem, filt=self.filt_of(it, st))
             self.loops.append(lc)
             self.loop_log.append(lc)
             self.assign(g.target, elem, st, ctx)
@@ -1100,8 +1107,11 @@ class Sym:
             st.path.append(f_and([cond, ia]))
             tests = [self.truth(self.eval(t, st, ctx), st) for t in g.ifs]
             st.path[:] = saved
-            if gi == 0 and len(e.generators) == 1 and not g.ifs and isinstance(e.elt if not isinstance(e, ast.DictComp) else None, ast.Name) and dotted(e.elt) == dotted(g.target):
+            if gi == 0 and len(e.generators) == 1 and isinstance(e.elt if not isinstance(e, ast.DictComp) else None, ast.Name) and dotted(e.elt) == dotted(g.target):
                 state["complete"] = self.complete_of(it, st)
+                prev = self.filt_of(it, st)
+                if g.ifs or prev is not None:
+                    state["filt"] = (elem, f_and([*([prev[1]] if prev is not None else []), *tests]))
             rec(gi + 1, f_and([cond, ia, *tests]))
             self.loops.pop()
 
@@ -1110,7 +1120,7 @@ class Sym:
         st.vars.update(saved_vars)
         if state["exact"]:
             return self.new_coll(st, kind, out_items, True, deps=state["deps"])
-        return self.new_coll(st, kind, [], False, complete_of=state["complete"], deps=state["deps"])
+        return self.new_coll(st, kind, [], False, complete_of=state["complete"], deps=state["deps"], filt=state["filt"] if state["complete"] else None)
 
     def _e_ListComp(self, e, st, ctx):
         return self._comp(e, st, ctx, "list")
@@ -1145,6 +1155,9 @@ class Sym:
         return None
 
     def elem_of(self, it: Val, st: State) -> Val:
+        f = self.filt_of(it, st)
+        if f is not None:
+            return f[0]
         return Opq(f"elem({key(it)})", self.deps(it, st), kind="elem", meta=(self.complete_of(it, st),))
 
     # ------------------------------------------------------------------ calls
@@ -1427,6 +1440,17 @@ class Sym:
             ydeps = frozenset().union(*[self.deps(v, st) for v, _c in frame.yields]) if frame.yields else frozenset()
             if frame.yields_exact:
                 return self.new_coll(st, "list", list(frame.yields), True, deps=ydeps)
+            # `for m in modules: if cond(m): yield m` - the elements of `modules` that satisfy cond
+            sites = frame.__dict__.get("yield_sites", [])
+            if sites and all(len(ls) == 1 and ls[0] is sites[0][2][0] and ls[0].elem is not None and y == ls[0].elem for y, _p, ls in sites):
+                lc = sites[0][2][0]
+                comp = lc.elem.meta[0] if isinstance(lc.elem, Opq) and lc.elem.meta else None
+                if comp:
+                    n0 = len(lc.pre_path) + 1
+                    cond = f_or([conj(p[n0:]) for _y, p, _l in sites])
+                    if lc.filt is not None:
+                        cond = f_and([lc.filt[1], cond])
+                    return self.new_coll(st, "list", [], False, complete_of=comp, deps=ydeps | deps, filt=(lc.elem, cond))
             return self.new_coll(st, "list", [], False, deps=ydeps | deps)
         return val
 
@@ -1456,7 +1480,7 @@ class Sym:
             items = self.exact_items(args[0], st)
             if items is not None:
                 return self.new_coll(st, kind, items, True, complete_of=self.complete_of(args[0], st))
-            return self.new_coll(st, kind, [], False, complete_of=self.complete_of(args[0], st), deps=deps)
+            return self.new_coll(st, kind, [], False, complete_of=self.complete_of(args[0], st), deps=deps, filt=self.filt_of(args[0], st))
         if name == "getattr" and len(args) >= 2:
             n = args[1]
             if isinstance(n, Const):
@@ -1841,7 +1865,7 @@ class Sym:
         ia = atom(f"iter#{n}")
         pre = tuple(st.path)
         elem = self.elem_of(it, st) if it is not None else None
-        lc = LoopCtx(n, ia, pre, it, s, kind, elem)
+        lc = LoopCtx(n, ia, pre, it, s, kind, elem, filt=self.filt_of(it, st) if it is not None else None)
         after = st.fork()
         self.havoc(body + ([ast.Assign(targets=[target], value=ast.Constant(value=None))] if target is not None else []), after, ctx, n)
         inner = after.fork(ia)
